@@ -12,6 +12,16 @@ CLAIMS = {
   text="Decides the whole property structurally: for every function that receives &mut Enr<K> (5 core mutators, 18 wrappers, sign) and every non-Ok exit (each `?`, each explicit Err, each tail call), a forward may-analysis over the MIR CFG shows that no write to *self is outstanding: either nothing was written on the way (clone-and-commit) or every written field was restored from a value saved before the write (save-and-restore); atomic callees count as writing only on their Ok edge. Path-complete for all inputs, histories, key types and failure causes, including the signer `?`, which is what an injected signing fault exercises.",
   note="Trusts: MIR fidelity; alias resolution of reborrows (kernel.py); std containers write only through the &mut they get; fields are private (C05 encapsulation rule). `still verifies` follows from C05.",
   design="3/C06"),
+ "C07": dict(
+  technique="MIR typestate dataflow on the record object of each mutator + wrapper call counting",
+  text="Decides the structural core of the property for all histories and starting values: at every commit of the four incrementing core mutators the sequence number was written exactly once, as the Some payload of u64::checked_add(old seq, 1) whose None outcome becomes Err(SequenceNumberTooHigh) (no wrapping/saturating/plain arithmetic on seq anywhere); set_seq commits exactly its u64 parameter; each of the 18 wrappers reaches every successful exit through exactly one core update (compound updates count once); seq is emitted and consumed as u64 in encode, both signing payload builders, decode and the builder. Not decided: alloy-rlp's u64 codec itself.",
+  note="Trusts: MIR fidelity; core::u64::checked_add; alloy-rlp integer codec. Atomicity of the overflow error is C06.",
+  design="3/C07"),
+ "C09": dict(
+  technique="MIR guard-set (interval) analysis + typestate `sized` fact + expression-shape rule for size()",
+  text="Decides: MAX_ENR_SIZE evaluates to 300; size() is the length of a fresh buffer filled only by the record's own encode; every commit of every mutator is preceded, after its last write to seq/content/signature, by a guard on size(the committed object) whose admitted set is exactly [0,300] (operator-independent, so both off-by-one directions and a dropped or mis-aimed guard are reported); every Err(ExceedsMaxSize) is control-dependent on a guard that holds only above 300; early guards are followed by no content write other than the signer's key; the decoder returns Ok only behind an item-size guard admitting exactly [0,300]; the builder's check is content+signature+c<=300 with 4<=c<=8. Not decided: the numeric coincidence refused<=>exceeded on concrete boundary records (needs evaluation of lengths).",
+  note="Trusts: MIR fidelity; RLP header arithmetic (encoded size <= content_len + sig_len + 4 for signatures < 256 bytes); fixed-length built-in signatures; Header::decode_bytes only advances.",
+  design="3/C09"),
 }
 
 checks = []
